@@ -228,6 +228,41 @@ def _work(task):
     return sample, seed, kind, len(data), data != base, calls, past_open, findings
 
 
+def extreme_value_files(repo):
+    """(name, bytes): a short MPEG stream with an ID3v2 tag holding one extreme text value and an ID3v1 block behind it
+    (so that the default v1=1 save rewrites the block), plus APEv2 / Vorbis carriers of the same values"""
+    from mutagen import id3
+    out = []
+    audio = open(os.path.join(repo, "tests", "data", "silence-44-s.mp3"), "rb").read()
+    try:
+        f0 = io.BytesIO(audio); id3.delete(f0); audio = f0.getvalue()
+    except Exception:
+        return out
+    v1 = b"TAG" + b"t".ljust(30, b"\0") + b"a".ljust(30, b"\0") + b"l".ljust(30, b"\0") + b"2004" + b"c".ljust(28, b"\0") + b"\0\x05\x11"
+    values = {
+        "TRCK": ["300/400", "256", "-3", "255", "99999999999999999999", "/", "1/", "\u0663"],
+        "TDRC": ["99999", "0000", "-001", "2004-13-45", "10000-01-01"],
+        "TYER": ["99999", "abcd", ""],
+        "TCON": ["(300)", "(255)", "(-1)", "300", "((", "(RX)(CR)"],
+        "TLEN": ["-1", "x", "9" * 40],
+        "TBPM": ["1e999", "nan"],
+        "TPOS": ["70000/3"],
+        "TIT2": ["x" * 70000, "\x00", "\ud7ff\U0010ffff"],
+    }
+    for fid, vals in values.items():
+        for i, v in enumerate(vals):
+            for ver in (4, 3):
+                try:
+                    t = id3.ID3()
+                    t.add(getattr(id3, fid)(encoding=3, text=[v]))
+                    g = io.BytesIO(audio)
+                    t.save(g, v1=0, v2_version=ver)
+                    out.append(("id3v2.%d-%s-%d+v1" % (ver, fid, i), g.getvalue() + v1))
+                except Exception:
+                    pass        # the builder could not write it: not an input
+    return out
+
+
 def run(ctx, tasks=None):
     ctx.rule = RULE
     repo = ctx.repo
@@ -261,6 +296,19 @@ def run(ctx, tasks=None):
                     ctx.violation(what if what != "hang" else "hang:%s:%s" % (getattr(op, "__name__", "?"), step),
                                   "%s: %s.%s on corpus input %s: %s" % (what, getattr(op, "__name__", "?"), step, fn, detail),
                                   {"corpus": fn, "opener": getattr(op, "__name__", "?"), "step": step})
+    # well-formed files whose tag *values* are extreme (saving re-encodes them into narrower fields: ID3v1 track/year/genre
+    # bytes, v2.3 frames): "saving through whatever was opened" must succeed or raise MutagenError
+    if tasks is not None and len(tasks) > 1:
+        _init_worker(repo)
+        for fn, blob in extreme_value_files(repo):
+            for op in _W["ops"]:
+                res, opened = run_protocol(op, blob, _W["File"], _W["Metadata"], _W["ME"])
+                ctx.case(key=("extreme-values", fn, getattr(op, "__name__", str(op))), nontrivial=opened, modelled=False)
+                ctx.hist["extreme-values"] += 1
+                for step, what, detail in res:
+                    ctx.violation(what if what != "hang" else "hang:%s:%s" % (getattr(op, "__name__", "?"), step),
+                                  "%s: %s.%s on the well-formed file %s: %s" % (what, getattr(op, "__name__", "?"), step, fn, detail),
+                                  {"synth": fn, "data_hex": blob.hex() if len(blob) < 4000 else None, "opener": getattr(op, "__name__", "?"), "step": step})
     with multiprocessing.Pool(min(16, os.cpu_count() or 4), initializer=_init_worker, initargs=(repo,)) as pool:
         for sample, seed, kind, size, changed, calls, past_open, findings in pool.imap_unordered(_work, tasks, chunksize=8):
             ctx.case(key=(sample, seed), nontrivial=(changed and past_open > 0), modelled=False, n=1,
